@@ -16,7 +16,7 @@ def afterSegno (e : Enc) : Enc :=
 theorem encEv_segno (nS nM : Nat) (e : Enc) : encEv nS nM e ⟨mds_SEGNO, 0⟩ = .ok (afterSegno e) := by
   have a1 : ¬ (mds_SEGNO = mds_REST ∧ (0 : Nat) ≠ 0) := by decide
   have a2 : ¬ (mds_SEGNO < mds_SLR ∧ (0 : Nat) ≠ 0) := by decide
-  have a3 : mds_SEGNO < mds_REST ∨ mds_SEGNO ≥ mds_SLR ∨ (0 : Nat) ≠ 0 := by decide
+  have a3 : (mds_SEGNO < mds_REST ∧ mds_SEGNO ≠ mds_CARRY) ∨ mds_SEGNO ≥ mds_SLR ∨ (0 : Nat) ≠ 0 := by decide
   have a9 : ¬ (mds_SEGNO = mds_LPB) := by decide
   simp only [encEv, a9, false_and, a1, a2, if_false, encOther, if_true, a3, afterSegno, disambP, needLenB, lastGt80]
   by_cases h1 : noteish e.lastType = true
@@ -26,16 +26,17 @@ theorem encEv_segno (nS nM : Nat) (e : Enc) : encEv nS nM e ⟨mds_SEGNO, 0⟩ =
     · by_cases hb : b > 128 <;> simp [h1, h2, hb]
   · simp [h1]
 
-theorem segno_good {seq : List Nat} {base mj : Nat} {e : Enc} {s : St} {O : List Tk} (g : Good e s O)
+theorem segno_good {M : Mode} {seq : List Nat} {base mj : Nat} (hS : M.Sound seq base mj) {e : Enc} {s : St}
+    {O : List Tk} (g : Good M e s O)
     (hp : (afterSegno e).out <+: seq) :
-    ∃ s1, Reach seq base mj s s1 ∧ Frame s s1 ∧ Good (afterSegno e) s1 O := by
-  obtain ⟨s1, r1, f1, i1, _, _, _⟩ := disamb_good (base := base) (mj := mj) g hp
+    ∃ s1, Reach seq base mj s s1 ∧ Frame s s1 ∧ Good M (afterSegno e) s1 O := by
+  obtain ⟨s1, r1, f1, i1, _, _, _⟩ := disamb_good (base := base) (mj := mj) hS g hp
   exact ⟨s1, r1, f1, ⟨fun h => absurd rfl h, fun h => absurd rfl h, i1.drum, .inl ⟨by simp [afterSegno, needLenB, noteish, mds_SEGNO, mds_TIE], i1.pc, i1.out⟩⟩⟩
 
 /-- a fresh interpreter state standing on the loop point is related to the encoder state there,
 whatever its registers hold -/
-theorem good_at_segno (e : Enc) (s : St) (hpc : s.pc = (afterSegno e).out.length) (hd : s.drum = false) :
-    Good (afterSegno e) s s.out :=
+theorem good_at_segno (M : Mode) (e : Enc) (s : St) (hpc : s.pc = (afterSegno e).out.length) (hd : s.drum = M.dm) :
+    Good M (afterSegno e) s s.out :=
   ⟨fun h => absurd rfl h, fun h => absurd rfl h, hd,
     .inl ⟨by simp [afterSegno, needLenB, noteish, mds_SEGNO, mds_TIE], hpc, rfl⟩⟩
 
@@ -64,13 +65,14 @@ def repeatL : Nat → List Tk → List Tk
 /-- all passes through the loop section: from any state standing on the loop point with `k` jumps
 left, the interpreter plays `b` `k + 1` times with a loop mark after each of the first `k`, and
 stops at the jump -/
-theorem jump_passes {seq : List Nat} {base mj : Nat} {eS eB : Enc} {T : List Tk}
-    (hsem : ∀ (s : St) (O : List Tk), Good eS s O →
-      ∃ s1, Reach seq base mj s s1 ∧ Frame s s1 ∧ Good eB s1 (T.reverse ++ O))
-    (hS : ∀ s : St, s.pc = eS.out.length → s.drum = false → Good eS s s.out)
-    (hp : eB.out ++ [mds_JUMP, jumpOff eB / 256, jumpOff eB % 256] <+: seq)
-    (htgt : (eB.out.length + 3 + (jumpOff eB / 256 * 256 + jumpOff eB % 256)) % 65536 = eS.out.length) :
-    ∀ (k : Nat) (s : St) (O : List Tk), Good eS s O → mj - s.jumps = k → s.jumps ≤ mj →
+theorem jump_passes {M : Mode} {seq : List Nat} {base mj : Nat} (hSnd : M.Sound seq base mj) {eS eB : Enc}
+    {T : List Tk} {hi lo : Nat}
+    (hsem : ∀ (s : St) (O : List Tk), Good M eS s O →
+      ∃ s1, Reach seq base mj s s1 ∧ FrameX s s1 ∧ Good M eB s1 (T.reverse ++ O))
+    (hS : ∀ s : St, s.pc = eS.out.length → s.drum = M.dm → Good M eS s s.out)
+    (hp : eB.out ++ [mds_JUMP, hi, lo] <+: seq)
+    (htgt : (eB.out.length + 3 + (hi * 256 + lo)) % 65536 = eS.out.length) :
+    ∀ (k : Nat) (s : St) (O : List Tk), Good M eS s O → mj - s.jumps = k → s.jumps ≤ mj →
       ∃ s', Reach seq base mj s s' ∧ step seq base mj s' = .error .finished ∧
         s'.out = (repeatL k (T ++ [Tk.loopMark]) ++ T).reverse ++ O := by
   intro k
@@ -78,10 +80,10 @@ theorem jump_passes {seq : List Nat} {base mj : Nat} {eS eB : Enc} {T : List Tk}
   | zero =>
     intro s O g hk hle
     obtain ⟨s1, r1, f1, g1⟩ := hsem s O g
-    obtain ⟨s2, r2, f2, i2⟩ := resolve (base := base) (mj := mj) g1 (b := mds_JUMP) (by decide) hp
+    obtain ⟨s2, r2, f2, i2⟩ := resolve (base := base) (mj := mj) hSnd g1 (b := mds_JUMP) (by decide) hp
     have r0 : seq[s2.pc]? = some mds_JUMP := by rw [i2.pc]; exact rd_at hp
-    have r1' : seq[s2.pc + 1]? = some (jumpOff eB / 256) := by rw [i2.pc]; exact rd_at1 hp
-    have r2' : seq[s2.pc + 1 + 1]? = some (jumpOff eB % 256) := by rw [i2.pc]; exact rd_at2 hp
+    have r1' : seq[s2.pc + 1]? = some hi := by rw [i2.pc]; exact rd_at1 hp
+    have r2' : seq[s2.pc + 1 + 1]? = some lo := by rw [i2.pc]; exact rd_at2 hp
     have hs := step_jump (base := base) (mj := mj) r0 r1' r2'
     have hj : s2.jumps ≥ mj := by rw [f2.jumps, f1.jumps]; omega
     rw [if_pos hj] at hs
@@ -89,18 +91,18 @@ theorem jump_passes {seq : List Nat} {base mj : Nat} {eS eB : Enc} {T : List Tk}
   | succ k ih =>
     intro s O g hk hle
     obtain ⟨s1, r1, f1, g1⟩ := hsem s O g
-    obtain ⟨s2, r2, f2, i2⟩ := resolve (base := base) (mj := mj) g1 (b := mds_JUMP) (by decide) hp
+    obtain ⟨s2, r2, f2, i2⟩ := resolve (base := base) (mj := mj) hSnd g1 (b := mds_JUMP) (by decide) hp
     have r0 : seq[s2.pc]? = some mds_JUMP := by rw [i2.pc]; exact rd_at hp
-    have r1' : seq[s2.pc + 1]? = some (jumpOff eB / 256) := by rw [i2.pc]; exact rd_at1 hp
-    have r2' : seq[s2.pc + 1 + 1]? = some (jumpOff eB % 256) := by rw [i2.pc]; exact rd_at2 hp
+    have r1' : seq[s2.pc + 1]? = some hi := by rw [i2.pc]; exact rd_at1 hp
+    have r2' : seq[s2.pc + 1 + 1]? = some lo := by rw [i2.pc]; exact rd_at2 hp
     have hs := step_jump (base := base) (mj := mj) r0 r1' r2'
     have hj : ¬ s2.jumps ≥ mj := by rw [f2.jumps, f1.jumps]; omega
     rw [if_neg hj] at hs
     obtain ⟨s3, hs3, hpc3', hd3', hj3', ho3'⟩ : ∃ s3 : St, step seq base mj s2 = .ok s3 ∧
-        s3.pc = (s2.pc + 3 + (jumpOff eB / 256 * 256 + jumpOff eB % 256)) % 65536 ∧ s3.drum = s2.drum ∧
+        s3.pc = (s2.pc + 3 + (hi * 256 + lo)) % 65536 ∧ s3.drum = s2.drum ∧
         s3.jumps = s2.jumps + 1 ∧ s3.out = Tk.loopMark :: s2.out := ⟨_, hs, rfl, rfl, rfl, rfl⟩
     have hpc3 : s3.pc = eS.out.length := by rw [hpc3', i2.pc]; exact htgt
-    have hd3 : s3.drum = false := by rw [hd3']; exact i2.drum
+    have hd3 : s3.drum = M.dm := by rw [hd3']; exact i2.drum
     have hj3 : s3.jumps = s.jumps + 1 := by rw [hj3', f2.jumps, f1.jumps]
     have ho3 : s3.out = Tk.loopMark :: (T.reverse ++ O) := by rw [ho3', i2.out]
     obtain ⟨s', r', hfin, ho'⟩ := ih s3 s3.out (hS s3 hpc3 hd3) (by omega) (by omega)
@@ -110,21 +112,23 @@ theorem jump_passes {seq : List Nat} {base mj : Nat} {eS eB : Enc} {T : List Tk}
 
 /-- **C02, loop point and loop-back jump.** -/
 theorem codec_roundtrip_segno (nS nM : Nat) (a b : List MEv) (ha : ∀ ev ∈ a, linEv ev = true)
-    (hb : ∀ ev ∈ b, linEv ev = true) (jarg : Nat) :
+    (hb : ∀ ev ∈ b, linEv ev = true) (ma : ∀ ev ∈ a, Mode.plain.evOk ev = true)
+    (mb : ∀ ev ∈ b, Mode.plain.evOk ev = true) (jarg : Nat) :
     ∃ bytes, convertTrack nS nM (a ++ [⟨mds_SEGNO, 0⟩] ++ b ++ [⟨mds_JUMP, jarg⟩]) = .ok bytes ∧
       (bytes.length < 65536 → ∀ (base mj : Nat) (ln lr : Option Nat),
         Plays bytes base mj ln lr
-          (ticks nS nM a ++ repeatL mj (ticks nS nM b ++ [Tk.loopMark]) ++ ticks nS nM b)) := by
-  obtain ⟨eA, heA, _, _, _, semA⟩ := encAll_lin nS nM a ha {}
-  obtain ⟨eB, heB, pB, _, spB, semB⟩ := encAll_lin nS nM b hb (afterSegno eA)
+          (ticks Mode.plain nS nM a ++ repeatL mj (ticks Mode.plain nS nM b ++ [Tk.loopMark]) ++ ticks Mode.plain nS nM b)) := by
+  obtain ⟨eA, heA, _, _, _, semA⟩ := encAll_lin Mode.plain nS nM a ha ma {}
+  obtain ⟨eB, heB, pB, _, spB, semB⟩ := encAll_lin Mode.plain nS nM b hb mb (afterSegno eA)
   obtain ⟨bytes, hbytes⟩ : ∃ l, l = eB.out ++ [mds_JUMP, jumpOff eB / 256, jumpOff eB % 256] := ⟨_, rfl⟩
   refine ⟨bytes, ?_, ?_⟩
   · simp [convertTrack, encAll_append, heA, encAll, encEv_segno, heB, encEv_jump, Except.map, hbytes]
   · intro hlen base mj ln lr
     have hpB : eB.out <+: bytes := by rw [hbytes]; exact List.prefix_append _ _
     have hpS : (afterSegno eA).out <+: bytes := pB.trans hpB
-    obtain ⟨s1, r1, f1, g1⟩ := semA bytes base mj _ [] ((disambP_prefix eA).trans hpS) (good_init ln lr)
-    obtain ⟨s2, r2, f2, g2⟩ := segno_good (base := base) (mj := mj) g1 hpS
+    have hSnd := Mode.plain_sound bytes base mj
+    obtain ⟨s1, r1, f1, g1⟩ := semA bytes base mj _ [] hSnd ((disambP_prefix eA).trans hpS) (good_init ln lr)
+    obtain ⟨s2, r2, f2, g2⟩ := segno_good (base := base) (mj := mj) hSnd g1 hpS
     have hlenB : eB.out.length + 3 < 65536 := by rw [hbytes] at hlen; simp at hlen; omega
     have hlenS : (afterSegno eA).out.length ≤ eB.out.length := pB.length_le
     have hsp : eB.segnoPos = (afterSegno eA).out.length := by
@@ -135,9 +139,11 @@ theorem codec_roundtrip_segno (nS nM : Nat) (a b : List MEv) (ha : ∀ ev ∈ a,
         (afterSegno eA).out.length := by
       simp only [jumpOff, hsp]; omega
     have hj2 : s2.jumps = 0 := by rw [f2.jumps, f1.jumps]
-    obtain ⟨s', r', hfin, ho'⟩ := jump_passes (base := base) (mj := mj)
-      (fun s O g => semB bytes base mj s O hpB g)
-      (fun s hpc hd => good_at_segno eA s hpc hd) (by rw [← hbytes]; exact List.prefix_refl _) htgt
+    obtain ⟨s', r', hfin, ho'⟩ := jump_passes (base := base) (mj := mj) hSnd
+      (fun s O g => by
+        obtain ⟨s1, a, b, c⟩ := semB bytes base mj s O hSnd hpB g
+        exact ⟨s1, a, b.x, c⟩)
+      (fun s hpc hd => good_at_segno Mode.plain eA s hpc hd) (by rw [← hbytes]; exact List.prefix_refl _) htgt
       mj s2 _ g2 (by omega) (by omega)
     refine ⟨s', r1.trans (r2.trans r'), hfin, ?_⟩
     rw [ho']; simp [List.reverse_append, List.append_assoc]
